@@ -5,10 +5,10 @@ IDS = ['a', 'b', 'c', 'd']
 
 
 def rand_const(rng):
-    return rng.choice([0, 1, 2, 'a', 'b', 'k', None, [1, 'a'], [], ['a', 'b']])
+    return rng.choice([0, 1, 2, 'a', 'b', 'k', None, [1, 'a'], [], ['a', 'b'], '', False, -1, -2])
 
 
-def gen_graph(rng: random.Random, max_nodes=18, malformed=0.03, kinds=None):
+def gen_graph(rng: random.Random, max_nodes=18, malformed=0.03, kinds=None, unique_fns=False):
     """Returns a case: {"nodes": [...], "inputs": [...], "stores": [...], "impure": [...]}.
     Node: {"name", "edge": None | {...}, "parents": [...]}; parents precede children."""
     n_inputs = rng.randint(1, 3)
@@ -18,6 +18,10 @@ def gen_graph(rng: random.Random, max_nodes=18, malformed=0.03, kinds=None):
     impure = []
     n_fns = rng.randint(1, 5)
     fns = [f'f{i}' for i in range(n_fns)]
+    const_fns = []
+    if rng.random() < 0.3:
+        # a user function with a falsy constant result (symbolic terms are never falsy)
+        const_fns.append([fns[-1], rng.choice([None, 0, '', [], False])])
     n_imp = rng.choice([0, 0, 1, 2])
     imps = [f'r{i}' for i in range(n_imp)]
     impure.extend(imps)
@@ -48,7 +52,12 @@ def gen_graph(rng: random.Random, max_nodes=18, malformed=0.03, kinds=None):
         nkw = min(nkw, arity)
         kw = sorted(rng.sample(['a', 'b', 'c', 'd'], nkw))
         silent = sorted(rng.sample(range(arity), rng.choice([0, 0, 0, 1]) if arity else 0)) if arity else []
-        return {'k': 'fn', 'f': rng.choice(pool), 'kw': kw, 'silent': silent}, arity
+        f = rng.choice(pool)
+        if unique_fns:
+            f = f'{f}_{len(nodes)}'
+            if pool is imps:
+                impure.append(f)
+        return {'k': 'fn', 'f': f, 'kw': kw, 'silent': silent}, arity
 
     def add(name, edge, parents):
         nodes.append({'name': name, 'edge': edge, 'parents': parents})
@@ -113,7 +122,10 @@ def gen_graph(rng: random.Random, max_nodes=18, malformed=0.03, kinds=None):
     if rng.random() < malformed and len(nodes) > n_inputs:
         # a leaf that is not declared as an input (rejected by validate_graph when reachable)
         declared = declared[:-1] if len(declared) > 1 else declared
-    return {'nodes': nodes, 'inputs': declared, 'stores': stores, 'impure': impure}
+    if unique_fns:
+        const_fns = [[n['edge']['f'], v] for n in nodes for c, v in const_fns
+                     if n['edge'] and n['edge'].get('k') == 'fn' and n['edge']['f'].startswith(c + '_')]
+    return {'nodes': nodes, 'inputs': declared, 'stores': stores, 'impure': impure, 'const_fns': const_fns}
 
 
 def gen_steps(rng, case, n_calls=None):
@@ -124,7 +136,7 @@ def gen_steps(rng, case, n_calls=None):
     steps = []
     for _ in range(n_calls):
         out = rng.choice(outs[-2:]) if rng.random() < 0.8 else rng.choice(outs)
-        env = {f'x{i}': rng.choice(IDS + IDS + ['z']) if rng.random() < 0.93 else rng.choice([0, 1, 2]) for i in range(n_in)}
+        env = {f'x{i}': rng.choice(IDS + IDS + ['z']) if rng.random() < 0.88 else rng.choice([0, 1, 2, None, '', -1, -2, 2305843009213693950, []]) for i in range(n_in)}
         r = rng.random()
         if r < 0.75:
             st = {'t': 'call', 'out': out, 'env': env}
